@@ -25,6 +25,8 @@ func runC18(c *Ctx) {
 	c.Rule("C18.W1", "every DATA payload is sliced by the amount awaitFlowControl granted in that iteration", 4)
 	c.Rule("C18.W2", "awaitFlowControl: grant = min(window, remaining, max frame size) > 0, debited before return, waits under the lock", 10)
 	c.Rule("C18.W3", "flow.available = min(stream, connection); take debits both", 3)
+	c.Rule("C18.W4", "every raise of a send window (and every stream removal) is followed by cond.Broadcast() before the handler returns", 5)
+	defer c18Wake(c, "pkg/module/http2")
 	c.NotDecided = append(c.NotDecided, "wire compatibility of frames and HPACK with golang.org/x/net/http2 (value-level)", "behaviour under concrete WINDOW_UPDATE schedules (liveness of the wait)", "SETTINGS handling that updates maxFrameSize / initial window")
 	c.Assumptions = append(c.Assumptions, "sync.Cond.Wait releases and re-acquires the mutex it was created with")
 
